@@ -52,7 +52,7 @@ ASSUMPTIONS = ['provider.CreateSink and connection.Open() do not raise synchrono
 
 MANIFEST = {
     'text': ('Theorems C07_size, C07_exclusive, C07_queue, C07_fifo, C07_no_leak, C07_handoff, C07_retention, '
-             'C07_dead_on_release (and C07_once) hold for every configuration and every label sequence of the Gallina '
+             'C07_dead_on_release, C07_closed_pool_open_inert (and C07_once) hold for every configuration and every label sequence of the Gallina '
              'transcription of the watermark pool; the transcription is compared in lock-step with the real '
              'WatermarkPoolSink on ~2k (quick) / ~83k (thorough, incl. all 9^5 sequences over a 9-letter alphabet for (1,1,2)) '
              'operation sequences per run, each followed by a drain to quiescence.'),
